@@ -142,7 +142,7 @@ pub fn schedule_part(run: &Run) -> Out {
             if w == 3 && !th {
                 continue;
             }
-            let cfg = Config { workers: w, choose_items: true, max_decisions: 10_000, min_items: 2 };
+            let cfg = Config { workers: w, choose_items: true, max_decisions: 10_000, min_items: 2, count_task_switches: false };
             explore_case(run, &format!("{key}:W{w}"), &cfg, None, body, &seq, json!({"a": ar.show(), "y1": y1r.show(), "y2": y2r.show(), "workers": w}), &tot);
         }
     });
@@ -195,7 +195,7 @@ pub fn schedule_part(run: &Run) -> Out {
             run.fail(&key, "sequential Schur result does not satisfy F_tgt·M·B_src = S, F·B = I", json!({"m": mr.show(), "r": r}));
             return;
         }
-        let cfg = Config { workers: 2, choose_items: true, max_decisions: 10_000, min_items: 2 };
+        let cfg = Config { workers: 2, choose_items: true, max_decisions: 10_000, min_items: 2, count_task_switches: false };
         explore_case(run, &format!("{key}:W2"), &cfg, None, body, &seq, json!({"m": mr.show(), "r": r}), &tot);
     });
     // ---- dir_sum_decomp: the union-find race ------------------------------------------------------
@@ -208,12 +208,31 @@ pub fn schedule_part(run: &Run) -> Out {
             dcases.push(m);
         }
     }
+    // wide inputs (a parallel loop may only fork beyond a minimum length, cf. rayon's with_min_len):
+    // 17 non-empty columns; column k = e_k, except one column z = e_x + e_y that joins two otherwise
+    // unrelated columns x and y.  Every placement x < y < z in thorough, a spread of placements in quick.
+    let n_small = dcases.len();
+    {
+        let w = 17usize;
+        for x in 0..w {
+            for y in x + 1..w {
+                for zc in y + 1..w {
+                    let pick = th || ([0usize, 3, 7].contains(&x) && [8usize, 12, 15].contains(&y) && (zc == y + 1 || zc == w - 1));
+                    if !pick {
+                        continue;
+                    }
+                    dcases.push(RMat::from_fn(w, w, |i, j| if j == zc { z((i == x || i == y) as i64) } else { z((i == j) as i64) }));
+                }
+            }
+        }
+    }
     run.par_for(dcases.len(), |ci| {
         if run.over_budget() {
             run.cap("C12 schedules: wall budget reached");
             return;
         }
         let mr = &dcases[ci];
+        let _wide = ci >= n_small;
         let m: SpMat<i64> = to_spmat::<i64>(mr);
         // value = the partition of rows and columns into blocks (as sets), plus block contents
         let body = || {
@@ -225,7 +244,8 @@ pub fn schedule_part(run: &Run) -> Out {
         // judge: permuted matrix is block diagonal of the blocks; number of blocks = number of
         // connected components of the bipartite row/column graph (reference)
         let comps = {
-            let mut parent: Vec<usize> = (0..7).collect();
+            let (mm, nn) = (mr.m, mr.n);
+            let mut parent: Vec<usize> = (0..mm + nn).collect();
             fn find(p: &mut Vec<usize>, x: usize) -> usize {
                 if p[x] != x {
                     let r = find(p, p[x]);
@@ -233,17 +253,17 @@ pub fn schedule_part(run: &Run) -> Out {
                 }
                 p[x]
             }
-            for i in 0..3 {
-                for j in 0..4 {
+            for i in 0..mm {
+                for j in 0..nn {
                     if !mr.at(i, j).is_zero() {
-                        let (a, b) = (find(&mut parent, i), find(&mut parent, 3 + j));
+                        let (a, b) = (find(&mut parent, i), find(&mut parent, mm + j));
                         parent[a] = b;
                     }
                 }
             }
-            let used: BTreeSet<usize> = (0..3)
-                .filter(|&i| (0..4).any(|j| !mr.at(i, j).is_zero()))
-                .chain((0..4).filter(|&j| (0..3).any(|i| !mr.at(i, j).is_zero())).map(|j| 3 + j))
+            let used: BTreeSet<usize> = (0..mm)
+                .filter(|&i| (0..nn).any(|j| !mr.at(i, j).is_zero()))
+                .chain((0..nn).filter(|&j| (0..mm).any(|i| !mr.at(i, j).is_zero())).map(|j| mm + j))
                 .collect();
             used.iter().map(|&x| find(&mut parent, x)).collect::<BTreeSet<_>>().len()
         };
@@ -253,11 +273,11 @@ pub fn schedule_part(run: &Run) -> Out {
                 return Err(format!("{} blocks, the bipartite graph has {comps} components", shapes.len()));
             }
             let (mut r0, mut c0) = (0, 0);
-            let mut expect = RMat::<Z>::zero(3, 4);
+            let mut expect = RMat::<Z>::zero(mr.m, mr.n);
             for (k, &(h, w)) in shapes.iter().enumerate() {
                 for i in 0..h {
                     for j in 0..w {
-                        if r0 + i >= 3 || c0 + j >= 4 {
+                        if r0 + i >= mr.m || c0 + j >= mr.n {
                             return Err("blocks exceed the matrix".into());
                         }
                         expect.set(r0 + i, c0 + j, blocks[k].at(i, j).clone());
@@ -271,10 +291,12 @@ pub fn schedule_part(run: &Run) -> Out {
             }
             Ok(())
         };
-        let key = format!("spsched:decomp:{}", mr.show());
-        let cfg = Config { workers: 2, choose_items: false, max_decisions: 10_000, min_items: 2 };
-        let bound = if th { 3 } else { 2 };
-        let st = sched::explore(&cfg, Some(bound), 200_000, body, |r, tr| match (&tr.abort, r) {
+        let key = format!("spsched:decomp:{}", if _wide { format!("wide17:{:?}", (0..mr.n).find(|&j| (0..mr.m).filter(|&i| !mr.at(i, j).is_zero()).count() == 2).map(|j| (j, (0..mr.m).filter(|&i| !mr.at(i, j).is_zero()).collect::<Vec<_>>()))) } else { mr.show() });
+        // wide inputs have ~16 tasks and ~150 lock points: there every switch to another worker
+        // counts as a deviation (also at task boundaries), bound 2
+        let cfg = Config { workers: 2, choose_items: false, max_decisions: 100_000, min_items: 2, count_task_switches: _wide };
+        let bound = if th && !_wide { 3 } else { 2 };
+        let st = sched::explore(&cfg, Some(bound), 400_000, body, |r, tr| match (&tr.abort, r) {
             (Some(Abort::Diverged(mm)), _) => {
                 eprintln!("MACHINERY ERROR: schedule replay diverged on {key}: {mm}");
                 std::process::exit(3);
@@ -283,8 +305,9 @@ pub fn schedule_part(run: &Run) -> Out {
                 run.fail(&key, &format!("aborted under schedule {:?}: {ab:?}", tr.choices()), json!({"m": mr.show()}));
                 false
             }
-            (None, Err(_)) => {
-                run.fail(&key, "panicked", json!({"m": mr.show()}));
+            (None, Err(p)) => {
+                let msg = p.downcast_ref::<String>().cloned().or_else(|| p.downcast_ref::<&str>().map(|x| x.to_string())).unwrap_or_default();
+                run.fail(&key, &format!("panicked under schedule {:?}: {msg}", tr.choices()), json!({"m": mr.show(), "schedule": tr.choices()}));
                 false
             }
             (None, Ok(v)) => match judge(&v) {
@@ -295,6 +318,9 @@ pub fn schedule_part(run: &Run) -> Out {
                 }
             },
         });
+        if !st.complete && run.nviolations() == 0 {
+            run.cap("C12 schedules (decomp): execution cap per case hit");
+        }
         let mut g = tot.lock().unwrap();
         g.0 += st.executions;
         g.1 += st.points;
